@@ -39,9 +39,12 @@ def setId (st : St) (id : String) (a : Addr) : St :=
   { st with ids := if a = 0 then ids else (id, a) :: ids }
 
 /-- smallest address ≥ 1 not live in the wrapped allocator (maximal reuse of addresses) -/
+def firstGap : Nat → List Nat → Nat
+  | c, [] => c
+  | c, a :: r => if a = c then firstGap (c + 1) r else if a < c then firstGap c r else c
+
 def pickFresh (par : Parent) : Addr :=
-  let n := par.blocks.length + 1
-  ((List.range n).map (· + 1)).find? (fun a => !par.live a) |>.getD (n + 1)
+  firstGap 1 ((par.blocks.map (·.1)).mergeSort (· ≤ ·))
 
 /-- answer of the harness parent to a realloc: in place iff asked to and the capacity suffices -/
 def reallocDest (par : Parent) (a : Addr) (old new : Nat) (keep : Bool) : Addr :=
